@@ -215,6 +215,13 @@ func (e *Exec) invokeFn(st *State, fr *Frame, fn *ssa.Function, args []Val, bind
 	if fn.Synthetic == "package initializer" || (fn.Name() == "init" && fn.Signature.Recv() == nil && fn.Signature.Params().Len() == 0 && e.initRunning != nil && fn.Pkg != e.initRunning) {
 		return []callRes{{st, nil}} // initialisers of imported packages are evaluated lazily, on first access to their globals
 	}
+	if e.RootCt != nil && e.RootCt.Models["md4"] {
+		if h, ok := md4Model[name]; ok {
+			if rs := h(e, st, fr, args, in, rt); rs != nil {
+				return rs
+			}
+		}
+	}
 	if h, ok := intrinsics[name]; ok {
 		if declining[name] {
 			// a model that only covers some uses (e.g. bytes.Buffer as an append-only accumulator): when it
